@@ -300,7 +300,7 @@ def shards(tier, seed):
         nsplit = 1 if bound == 0 else (6 if tier == "quick" else 14)
         for i in range(nsplit):
             out.append({"part": "sched", "h": hname, "k": k, "bound": bound, "i": i, "of": nsplit, "seed": seed})
-    for hname in ("det3", "state3", "seq", "custom3"):
+    for hname in ("det3", "state3", "seq", "custom3", "noisy3", "mseed3"):
         out.append({"part": "free", "h": hname, "seed": seed, "tier": tier})
     out.append({"part": "calib", "seed": seed, "tier": tier})
     for name in BFE:
